@@ -152,6 +152,18 @@ def cases(ctx):
     return out
 
 
+def corpus(ctx):
+    """minimised past failures, replayed first on every run"""
+    out = []
+    # C06 finding (2026-09-29): collinear pair on which np.linalg.eig returns a complex-conjugate eigenvector pair for the
+    # (numerically double) top eigenvalue of the symmetric key matrix; the quaternion kernel drops the imaginary parts entry by
+    # entry and returns a nearly singular matrix (det 0.019, residual 17.2 against the optimum 0.733)
+    P, Q = [[-3, -2, 0], [3, 2, 0]], [[0, 0, -3], [0, 0, 3]]
+    for op in ('quat', 'kabsch'):
+        out.append({'op': op, 'P': pts(P), 'Q': pts(Q), 'family': 'corpus-collinear', 'n': 2, 'scale_in': 1.0, 'eps': rat(EPS)})
+    return out
+
+
 def search_cases(ctx):
     """mirror-image / degenerate families (used when a proof obligation or the correspondence breaks)"""
     g = nprng(ctx.rng)
@@ -279,6 +291,8 @@ def agree_model(c, out, model):
     op = c['op']
     if op == 'superpose_sel':
         m = model['xyz']
+        if c.get('obs', {}).get('eig_complex'):
+            return True
         if isinstance(out, str) or isinstance(m, str):
             return True if out == m else f'implementation {out!r} model {m!r}'
         scale = unrat(out['coord_scale'])
@@ -288,6 +302,10 @@ def agree_model(c, out, model):
         d = _maxdiff(flat(m), flat(out['xyz']))
         return True if d <= TOL * scale else f'superposed coordinates differ by {float(d):.3e} (scale {float(scale):.3g})'
     mU = model['U']
+    if c.get('obs', {}).get('eig_complex'):
+        # np.linalg.eig returned complex arrays: outside what the model's real `eig` parameter can express, the model has no
+        # answer; the implementation is judged by the Spec alone (agree_spec) on this case
+        return True
     if op == 'guard':
         if isinstance(out, str):
             return True if out == mU else f'implementation {out!r} model {mU!r}'
@@ -347,6 +365,9 @@ def agree_spec(c, out, spec):
 
 
 def classify(c, out, spec):
+    """kind of a Spec violation, for /verif/known_findings.json"""
+    if c.get('obs', {}).get('eig_complex'):
+        return 'quat_complex_eig_pair'
     return None
 
 
